@@ -292,6 +292,63 @@ func runC03(r *Run) {
 	}
 	hb.Done()
 
+	// ---- Add stays inside the buffer it grew
+	ab := r.Rule("C03.addbounds", "the upper bound of every slice of Raw in Add is proved within len(Raw) from the grow that precedes it, for every capacity the caller's buffer may have: Add (which has no error result) does not panic on a buffer whose spare capacity ends inside the attribute or its padding", 3)
+	if addF := p.Meth("Message", "Add"); addF != nil && addF.Blocks != nil {
+		r.Analysed(addF)
+		// where int has 32 bits int(m.Length) is taken to be the value of the uint32 field and the sums of lengths
+		// are taken not to wrap: a message of 2 GiB does not exist (the header's length field has 16 bits)
+		r.Assume("Message.Length and 20+Length+4+len(value)+3 stay below 2^31 where int has 32 bits (C03.addbounds)")
+		lenF := FieldVar(p.Named("Message"), "Length")
+		pr := newProver(p, addF)
+		sums := map[*ssa.Function]*IntSummary{}
+		pr.Sum = func(f *ssa.Function) *IntSummary {
+			if sm, ok := sums[f]; ok {
+				return sm
+			}
+			sm := summarizeIntFunc(f)
+			sums[f] = sm
+			return sm
+		}
+		pr.intBits = 64
+		pr.AssumeFits = func(c *ssa.Convert) bool {
+			ld, ok := c.X.(*ssa.UnOp)
+			if !ok || ld.Op != token.MUL {
+				return false
+			}
+			return lenF != nil && fieldOfAddr(ld.X) == lenF
+		}
+		for _, ob := range boundsObligations(pr, addF) {
+			sl, ok := ob.In.(*ssa.Slice)
+			if !ok || ob.CapIdiom {
+				continue
+			}
+			ld, ok := sl.X.(*ssa.UnOp)
+			if !ok || ld.Op != token.MUL || fieldOfAddr(ld.X) != rawF {
+				continue
+			}
+			var goals []Goal
+			for _, g := range ob.Goals {
+				if g.Desc == "hi <= len" {
+					goals = append(goals, g)
+				}
+			}
+			if len(goals) == 0 {
+				continue
+			}
+			ob.Goals = goals
+			okP, _, failed, facts := dischargeObligation(pr, ob)
+			ab.Instance(fnName(addF)+"|"+ob.Desc, true, map[string]interface{}{"site": ob.Desc, "proved": okP, "facts": facts})
+			ab.Obligation(okP, false)
+			if !okP {
+				ab.Violation(addF, instrPos(ob.In), ob.Desc, "cannot prove "+failed+" from the grow that precedes this slice: on a caller-supplied buffer whose capacity ends below the bound Add panics (it has no error result), where growing first would have reallocated")
+			}
+		}
+	} else {
+		ab.Fail("Message.Add", "not found")
+	}
+	ab.Done()
+
 	// ---- every attribute type Add can write is stored unchanged by Decode
 	ti := r.Rule("C03.typeident", "the attribute-type translation applied by Decode is the identity on every type that Add can write", 1)
 	if compat := p.Fn("compatAttrType"); compat == nil {
